@@ -209,8 +209,9 @@ class Model:
             if p['dst'] == dst or p['src'] == dst:
                 return False
         if attr == 'radius':
-            return not self.is_plane(src) and \
-                math.isfinite(self.surfs[src]['radius'])
+            # a flat source is allowed (its target is flat too until the
+            # source is given a radius)
+            return True
         if attr == 'conic':
             return not self.is_plane(src) and not self.is_plane(dst)
         if attr == 'thickness':
@@ -227,6 +228,8 @@ class Model:
 
     def apply_pickup(self, p):
         v = p['scale'] * self.get_attr(p['src'], p['attr']) + p['offset']
+        if p['attr'] == 'radius' and not (v == v):
+            raise NotApplicable('0 x infinity')
         if p['attr'] == 'radius':
             self.set_radius(p['dst'], v)
         elif p['attr'] == 'conic':
